@@ -279,6 +279,12 @@ func (r *replicator) processHash(ctx context.Context, item processItem) ([]cid.C
 		return nil, fmt.Errorf("unable to fetch log: %w", err)
 	}
 
+	if l.Len() == 0 {
+		// the fetcher does not report errors: an entry that could not be fetched
+		// (request cancelled, block unavailable) simply is not in the result
+		return nil, fmt.Errorf("unable to fetch log: entry %s was not fetched", hash.String())
+	}
+
 	r.muBuffer.Lock()
 	r.buffer = append(r.buffer, l)
 	r.muBuffer.Unlock()
